@@ -164,7 +164,7 @@ impl Proto for V4 {
             UReq::Publish { qos } => client.try_publish("t/x", q(*qos), false, payload(tag)).is_ok(),
             UReq::Subscribe => client.try_subscribe("s/#", QoS::AtLeastOnce).is_ok(),
             UReq::Unsubscribe => client.try_unsubscribe("s/#").is_ok(),
-            UReq::Ack => {
+            UReq::Ack | UReq::AckSecond => {
                 let Some(Pk::Publish { qos, pkid, .. }) = inbound else {
                     return false;
                 };
